@@ -295,7 +295,9 @@ func jq(s string) string {
 	e.SetEscapeHTML(false)
 	_ = e.Encode(s)
 	// DEL is legal inside a JSON string but not as a literal character in YAML
-	return strings.ReplaceAll(strings.TrimSuffix(b.String(), "\n"), "\x7f", `\u007f`)
+	// and so is the byte order mark, which yaml.v2 does not take for a printable character
+	out := strings.ReplaceAll(strings.TrimSuffix(b.String(), "\n"), "\x7f", `\u007f`)
+	return strings.ReplaceAll(out, "\ufeff", `\uFEFF`)
 }
 
 func yamlMap(kvs []KV) string {
